@@ -102,6 +102,7 @@ def run_spec(spec: dict, keep_events: bool = False, watchdog_s: float | None = N
     # Drop the run's object graph now, in this (single) thread: jitted closures and their XLA
     # executables must not be freed by a cyclic-GC pass that happens to run in an actor thread of a
     # later run while other threads compile (see campaign.after_run).
+    interp._RUNS.pop(run.token, None)
     run.handles.clear()
     run.actors.clear()
     run.shared_callbacks.clear()
